@@ -5,7 +5,7 @@ that go into the evidence files."""
 
 class Leg:
     def __init__(self, name, pkg, test, engine="rapid-PBT", rapid=True, race=False, instrument=None,
-                 checks=(1000, 10000), shards=(1, 16), timeout=(300, 1500), steps=None, env=None,
+                 checks=(1000, 10000), shards=(1, 16), timeout=(300, 3600), steps=None, env=None,
                  env_quick=None, env_thorough=None, tiers=("quick", "thorough"), fuzz=None, fuzztime=60,
                  app=None, crash_is_violation=True, shrinktime=20, tests=None, replay_attempts=1):
         self.name = name
@@ -53,8 +53,8 @@ PROPS["C14"] = {
     "min_evals": {"quick": 50000, "thorough": 1000000},
     "legs": [
         Leg("grid", "c14", "^TestGrid$", engine="enumerate", rapid=False, shards=(1, 1), tests=["grid"]),
-        Leg("random", "c14", "^TestRandom$", checks=(200000, 2000000), shards=(2, 16), tests=["random"]),
-        Leg("fuzz-bits", "c14", "", engine="native-fuzz", fuzz="FuzzBits", fuzztime=60, tiers=("thorough",)),
+        Leg("random", "c14", "^TestRandom$", checks=(200000, 6000000), shards=(2, 16), tests=["random"]),
+        Leg("fuzz-bits", "c14", "", engine="native-fuzz", fuzz="FuzzBits", fuzztime=120, tiers=("thorough",)),
     ],
 }
 
@@ -75,10 +75,10 @@ PROPS["C07"] = {
     "min_evals": {"quick": 50000, "thorough": 500000},
     "legs": [
         Leg("sweep", "c07", "^TestSweep$", engine="enumerate", rapid=False, shards=(8, 16), tests=["sweep"]),
-        Leg("frame", "c07", "^TestFrame$", checks=(20000, 60000), shards=(2, 16), tests=["frame"]),
-        Leg("stream", "c07", "^TestStream$", checks=(3000, 20000), shards=(2, 16), tests=["stream"]),
-        Leg("fuzz-typed-frame", "c07", "", engine="native-fuzz", fuzz="FuzzTypedFrame", fuzztime=90, tiers=("thorough",)),
-        Leg("fuzz-raw-stream", "c07", "", engine="native-fuzz", fuzz="FuzzRawStream", fuzztime=60, tiers=("thorough",)),
+        Leg("frame", "c07", "^TestFrame$", checks=(20000, 200000), shards=(2, 16), tests=["frame"]),
+        Leg("stream", "c07", "^TestStream$", checks=(3000, 60000), shards=(2, 16), tests=["stream"]),
+        Leg("fuzz-typed-frame", "c07", "", engine="native-fuzz", fuzz="FuzzTypedFrame", fuzztime=150, tiers=("thorough",)),
+        Leg("fuzz-raw-stream", "c07", "", engine="native-fuzz", fuzz="FuzzRawStream", fuzztime=120, tiers=("thorough",)),
     ],
 }
 
@@ -98,9 +98,9 @@ PROPS["C01"] = {
     "assumptions": ["harness CRC-24Q (bitwise, poly 0x1864CFB) is correct - self-tested at start-up, failure exits 2", "Go toolchain, rapid v1.3.0"],
     "min_evals": {"quick": 20000, "thorough": 500000},
     "legs": [
-        Leg("stream", "c01", "^TestStream$", checks=(3000, 25000), shards=(2, 16), tests=["stream"]),
-        Leg("buffer", "c01", "^TestBuffer$", checks=(30000, 250000), shards=(2, 16), tests=["buffer"]),
-        Leg("fuzz-buffer", "c01", "", engine="native-fuzz", fuzz="FuzzBuffer", fuzztime=90, tiers=("thorough",)),
+        Leg("stream", "c01", "^TestStream$", checks=(3000, 100000), shards=(2, 16), tests=["stream"]),
+        Leg("buffer", "c01", "^TestBuffer$", checks=(30000, 400000), shards=(2, 16), tests=["buffer"]),
+        Leg("fuzz-buffer", "c01", "", engine="native-fuzz", fuzz="FuzzBuffer", fuzztime=150, tiers=("thorough",)),
     ],
 }
 
@@ -117,8 +117,8 @@ PROPS["C02"] = {
     "assumptions": ["a second close() of a Go channel panics (language semantics) - that is how 'closed twice' is observed", "20 s watchdog, re-run once before a non-termination is reported", "Go toolchain, rapid v1.3.0"],
     "min_evals": {"quick": 4000, "thorough": 200000},
     "legs": [
-        Leg("stream", "c02", "^TestStream$", checks=(3000, 25000), shards=(2, 12), tests=["stream"]),
-        Leg("stream-race", "c02", "^TestStream$", race=True, checks=(600, 6000), shards=(2, 8), tests=["stream"]),
+        Leg("stream", "c02", "^TestStream$", checks=(3000, 120000), shards=(2, 16), tests=["stream"]),
+        Leg("stream-race", "c02", "^TestStream$", race=True, checks=(600, 25000), shards=(2, 16), tests=["stream"]),
     ],
 }
 
@@ -137,7 +137,7 @@ PROPS["C03"] = {
     "min_evals": {"quick": 4000, "thorough": 200000},
     "legs": [
         Leg("lengths", "c03", "^TestLengths$", engine="enumerate", rapid=False, shards=(1, 1), tests=["lengths"]),
-        Leg("stream", "c03", "^TestStream$", checks=(8000, 30000), shards=(2, 16), tests=["stream"]),
+        Leg("stream", "c03", "^TestStream$", checks=(8000, 150000), shards=(2, 16), tests=["stream"]),
     ],
 }
 
@@ -154,7 +154,7 @@ PROPS["C12"] = {
     "min_evals": {"quick": 10000, "thorough": 300000},
     "legs": [
         Leg("single-bit", "c12", "^TestSingleBit$", engine="enumerate", rapid=False, shards=(1, 1), tests=["single-bit"]),
-        Leg("fault", "c12", "^TestFault$", checks=(8000, 30000), shards=(2, 16), tests=["fault"]),
+        Leg("fault", "c12", "^TestFault$", checks=(8000, 120000), shards=(2, 16), tests=["fault"]),
     ],
 }
 
@@ -190,8 +190,8 @@ PROPS["C05"] = {
     "assumptions": ["harness bit writer/encoder (exercised against the reference bit reader in C14)", "the display oracle looks for the exact decimals among the numbers shown, in order, so wording changes are not alarms", "Go toolchain, rapid v1.3.0"],
     "min_evals": {"quick": 20000, "thorough": 1000000},
     "legs": [
-        Leg("message", "c05", "^TestMessage$", checks=(60000, 400000), shards=(2, 16), tests=["message"]),
-        Leg("fuzz-message", "c05", "", engine="native-fuzz", fuzz="FuzzMessage", fuzztime=60, tiers=("thorough",)),
+        Leg("message", "c05", "^TestMessage$", checks=(60000, 2000000), shards=(2, 16), tests=["message"]),
+        Leg("fuzz-message", "c05", "", engine="native-fuzz", fuzz="FuzzMessage", fuzztime=120, tiers=("thorough",)),
     ],
 }
 
@@ -208,8 +208,8 @@ PROPS["C04"] = {
     "assumptions": ["harness MSM encoder follows the documented layout (169-bit header, cell mask, field-major satellite and signal data)", "Go toolchain, rapid v1.3.0"],
     "min_evals": {"quick": 5000, "thorough": 300000},
     "legs": [
-        Leg("message", "c04", "^TestMessage$", checks=(4000, 40000), shards=(2, 16), tests=["message"]),
-        Leg("fuzz-message", "c04", "", engine="native-fuzz", fuzz="FuzzMessage", fuzztime=90, tiers=("thorough",)),
+        Leg("message", "c04", "^TestMessage$", checks=(4000, 300000), shards=(2, 16), tests=["message"]),
+        Leg("fuzz-message", "c04", "", engine="native-fuzz", fuzz="FuzzMessage", fuzztime=150, tiers=("thorough",)),
     ],
 }
 
@@ -227,7 +227,7 @@ PROPS["C08"] = {
     "assumptions": ["golden frequency table in c08_test.go transcribes the documented plan (GPS L1/L2/L5, Galileo E1/E6/E5b/E5ab/E5a, GLONASS G1/G2 base, BeiDou B1/B3/B2)", "speed of light 299792458 m/s", "Go toolchain, rapid v1.3.0"],
     "min_evals": {"quick": 50000, "thorough": 2000000},
     "legs": [
-        Leg("cell", "c08", "^TestCell$", checks=(60000, 500000), shards=(2, 16), tests=["cell"]),
+        Leg("cell", "c08", "^TestCell$", checks=(60000, 2000000), shards=(2, 16), tests=["cell"]),
     ],
 }
 
@@ -248,7 +248,7 @@ PROPS["C06"] = {
     "assumptions": _TIME_ASSUME,
     "min_evals": {"quick": 5000, "thorough": 300000},
     "legs": [
-        Leg("history", "c06", "^TestHistory$", checks=(4000, 30000), shards=(2, 16), tests=["history"]),
+        Leg("history", "c06", "^TestHistory$", checks=(4000, 150000), shards=(2, 16), tests=["history"]),
     ],
 }
 
@@ -264,7 +264,7 @@ PROPS["C17"] = {
     "assumptions": _TIME_ASSUME,
     "min_evals": {"quick": 5000, "thorough": 300000},
     "legs": [
-        Leg("history", "c17", "^TestHistory$", checks=(4000, 30000), shards=(2, 16), tests=["history"]),
+        Leg("history", "c17", "^TestHistory$", checks=(4000, 150000), shards=(2, 16), tests=["history"]),
     ],
 }
 
@@ -283,11 +283,11 @@ PROPS["C18"] = {
     "min_evals": {"quick": 250000, "thorough": 300000},
     "legs": [
         Leg("exhaustive", "c18", "^TestExhaustive$", engine="enumerate", rapid=False, shards=(8, 8), tests=["exhaustive"]),
-        Leg("long", "c18", "^TestLong$", checks=(1500, 10000), shards=(1, 8), tests=["long"]),
-        Leg("concurrent", "c18", "^TestConcurrent$", engine="sched", checks=(400, 3000), shards=(2, 8), tests=["concurrent"]),
-        Leg("concurrent-race", "c18", "^TestConcurrent$", engine="sched", race=True, checks=(250, 2000), shards=(2, 8), tests=["concurrent"]),
+        Leg("long", "c18", "^TestLong$", checks=(1500, 20000), shards=(1, 16), tests=["long"]),
+        Leg("concurrent", "c18", "^TestConcurrent$", engine="sched", checks=(400, 12000), shards=(2, 16), tests=["concurrent"]),
+        Leg("concurrent-race", "c18", "^TestConcurrent$", engine="sched", race=True, checks=(250, 6000), shards=(2, 16), tests=["concurrent"]),
         Leg("concurrent-yield-race", "c18", "^TestConcurrent$", engine="sched", race=True, instrument=["apps/proxy/circular_queue/circular_queue.go"],
-            checks=(250, 2000), shards=(2, 8), tests=["concurrent"]),
+            checks=(250, 6000), shards=(2, 16), tests=["concurrent"]),
     ],
 }
 
@@ -307,9 +307,9 @@ PROPS["C09"] = {
     "assumptions": ["Go race detector (happens-before on executed schedules)", "goroutines are identified by function names in runtime.Stack", "30 s bound on return (normal < 10 ms)", "Go toolchain, rapid v1.3.0"],
     "min_evals": {"quick": 800, "thorough": 30000},
     "legs": [
-        Leg("pipeline", "c09", "^TestPipeline$", engine="sched", checks=(500, 4000), shards=(2, 8), tests=["pipeline"]),
-        Leg("pipeline-race", "c09", "^TestPipeline$", engine="sched", race=True, checks=(200, 2000), shards=(2, 8), tests=["pipeline"]),
-        Leg("pipeline-yield-race", "c09", "^TestPipeline$", engine="sched", race=True, instrument=_PIPE_FILES, checks=(150, 2000), shards=(2, 16), tests=["pipeline"]),
+        Leg("pipeline", "c09", "^TestPipeline$", engine="sched", checks=(500, 15000), shards=(2, 16), tests=["pipeline"]),
+        Leg("pipeline-race", "c09", "^TestPipeline$", engine="sched", race=True, checks=(200, 8000), shards=(2, 16), tests=["pipeline"]),
+        Leg("pipeline-yield-race", "c09", "^TestPipeline$", engine="sched", race=True, instrument=_PIPE_FILES, checks=(150, 8000), shards=(2, 16), tests=["pipeline"]),
     ],
 }
 
@@ -327,7 +327,7 @@ PROPS["C13"] = {
     "assumptions": ["the handler decides with time.Now(): tolerance 40 ms, stalls are detected on the reader's clock and discarded, never reported", "bufio.Reader separates data from a simultaneous error", "Go toolchain, rapid v1.3.0"],
     "min_evals": {"quick": 250, "thorough": 10000},
     "legs": [
-        Leg("script", "c13", "^TestScript$", engine="fault-injection", checks=(80, 700), shards=(16, 32), tests=["script"]),
+        Leg("script", "c13", "^TestScript$", engine="fault-injection", checks=(80, 2500), shards=(16, 32), tests=["script"]),
     ],
 }
 
@@ -345,8 +345,8 @@ PROPS["C15"] = {
     "assumptions": ["the MSM time lines ('Time ...', 'Start of ...') are excluded as the statement says", "consumers never write to the shared RawData bytes (documented as shared read-only)", "Go race detector", "Go toolchain, rapid v1.3.0"],
     "min_evals": {"quick": 1500, "thorough": 100000},
     "legs": [
-        Leg("history", "c15", "^TestHistory$", checks=(1000, 10000), shards=(2, 12), tests=["history"]),
-        Leg("history-race", "c15", "^TestHistory$", engine="sched", race=True, checks=(200, 3000), shards=(2, 8), tests=["history"]),
+        Leg("history", "c15", "^TestHistory$", checks=(1000, 12000), shards=(2, 16), tests=["history"]),
+        Leg("history-race", "c15", "^TestHistory$", engine="sched", race=True, checks=(200, 3000), shards=(2, 16), tests=["history"]),
     ],
 }
 
@@ -363,8 +363,8 @@ PROPS["C10"] = {
     "assumptions": ["reference framer ref.Segments transcribes the documented framing rules (cross-checked against the library on clean streams in C03/C12)", "the package clause of apps/rtcmfilter/*.go is renamed in the scratch copy so that it can be imported; nothing else is changed", "Go toolchain, rapid v1.3.0"],
     "min_evals": {"quick": 300, "thorough": 20000},
     "legs": [
-        Leg("filter", "c10", "^TestFilter$", checks=(120, 1500), shards=(4, 16), tests=["filter"]),
-        Leg("filter-race", "c10", "^TestFilter$", engine="sched", race=True, checks=(60, 500), shards=(2, 8), tests=["filter"]),
+        Leg("filter", "c10", "^TestFilter$", checks=(120, 8000), shards=(4, 16), tests=["filter"]),
+        Leg("filter-race", "c10", "^TestFilter$", engine="sched", race=True, checks=(60, 3000), shards=(2, 16), tests=["filter"]),
     ],
 }
 
@@ -382,7 +382,7 @@ PROPS["C11"] = {
     "assumptions": ["gate window 120 ms: a defective implementation that is merely slow to return inside the window is a missed detection, never a false alarm", "displayrtcm3's expected body is the library's own Message.String (its correctness is C05/C08/C15's business)", "Go toolchain, rapid v1.3.0"],
     "min_evals": {"quick": 150, "thorough": 8000},
     "legs": [
-        Leg("return", "c11", "^TestReturn$", engine="sched", checks=(30, 500), shards=(16, 32), tests=["return"], replay_attempts=5),
+        Leg("return", "c11", "^TestReturn$", engine="sched", checks=(30, 1500), shards=(16, 32), tests=["return"], replay_attempts=5),
     ],
 }
 
@@ -400,9 +400,9 @@ PROPS["C16"] = {
     "assumptions": ["the binary is built from the working tree with go build ./apps/rtcmlogger", "the record file is rtcmlogger.<date>.rtcm in message_log_directory (files concatenated in name order if the run crosses midnight)", "Go toolchain, rapid v1.3.0"],
     "min_evals": {"quick": 300, "thorough": 8000},
     "legs": [
-        Leg("run", "c16", "^TestRun$", engine="process", app=["rtcmlogger"], checks=(30, 500), shards=(16, 16), tests=["run"], replay_attempts=20),
+        Leg("run", "c16", "^TestRun$", engine="process", app=["rtcmlogger"], checks=(30, 4000), shards=(16, 16), tests=["run"], replay_attempts=20),
         Leg("run-instrumented", "c16", "^TestRun$", engine="process+sched", app=["rtcmlogger"], instrument=["apps/rtcmlogger/main.go"],
-            env={"VERIF_INSTRUMENTED": "1"}, checks=(8, 150), shards=(16, 16), tests=["run"], replay_attempts=20),
+            env={"VERIF_INSTRUMENTED": "1"}, checks=(8, 1500), shards=(16, 16), tests=["run"], replay_attempts=20),
     ],
 }
 
@@ -422,7 +422,7 @@ PROPS["C19"] = {
     "assumptions": ["escaping is required for '<' and '>' only - the two characters the project's own Sanitise defines", "the proxy needs record_messages=true to start (it dereferences its log writer at start-up); that precondition is outside the property", "loopback TCP semantics", "Go toolchain, rapid v1.3.0"],
     "min_evals": {"quick": 2000, "thorough": 40000},
     "legs": [
-        Leg("report", "c19", "^TestReport$", checks=(2000, 20000), shards=(2, 16), tests=["report"]),
-        Leg("relay", "c19", "^TestRelay$", engine="process", app=["proxy"], checks=(40, 1500), shards=(8, 16), tests=["relay"], replay_attempts=3),
+        Leg("report", "c19", "^TestReport$", checks=(2000, 100000), shards=(2, 16), tests=["report"]),
+        Leg("relay", "c19", "^TestRelay$", engine="process", app=["proxy"], checks=(40, 5000), shards=(8, 16), tests=["relay"], replay_attempts=3),
     ],
 }
